@@ -133,6 +133,8 @@ def run_1d(c):
     classes = ["band_" + c["band"], "layout_" + sc["layout"], "moments_" + sc["moment_kind"]]
     if sc.get("history"):
         classes.append("object_modified_in_place_after_earlier_queries")
+    if sc.get("memory"):
+        classes.append("stored_arrays_" + sc["memory"] + "_layout")
     nontriv = bool((valid & (R >= 1e-3)).any())
     if valid.any() and (np.abs(np.abs(dir_of(A, B)[valid]) - 180) < 5).any():
         classes.append("mean_direction_near_seam_180")
@@ -230,6 +232,8 @@ def run_2d(c):
     classes = ["mirror" if mirror else "rotate", "layout_" + sc["layout"], "band_" + c["band"], "values_" + sc["values"]]
     if sc.get("history"):
         classes.append("object_modified_in_place_after_earlier_queries")
+    if sc.get("memory"):
+        classes.append("stored_arrays_" + sc["memory"] + "_layout")
     if has.all() and not amb.any():
         ar = np.arange(n)
         pf0 = _arr(s0.peak_frequency(fmin, fmax)).reshape(n)
